@@ -11,14 +11,32 @@
 //!    every authority of p masks that field. Every query of a battery gives p byte-identical
 //!    responses on S1 and S2 (wall-clock instants and digests over them masked; established by
 //!    building S1 twice); the owner must see a difference (non-trivial);
+//!    p's authority comes from ONE source or is COMBINED from several independent ones (direct
+//!    grant, group grant, policy allow, delegation, in every pairing): different kinds by
+//!    different sources (masked on one kind, in full on another; each with its own ceiling - an
+//!    element is then hidden one step above the ceiling of the source over ITS kind), two masks
+//!    over the same kinds (only what both hide varies), two ceilings, an unbounded source that
+//!    lapsed long ago, an unbounded source that confers search / history / export but not `read`,
+//!    a label that only a deny statement (naming p, or a group of p) takes away, a kind no source
+//!    reaches (hidden whatever its label). Masked members that vary: attributes, facets, name, key
+//!    of Concepts, stance, confidence, mode of Assertions - each only for a kind where EVERY source
+//!    that reaches it masks the member; the battery constrains the indexed ones in element
+//!    patterns (bare, COUNT, NOT, OPTIONAL, UNION, paged, EXPORT);
 //!    plus, per store: `SEARCH .. LIMIT k` is a prefix of `SEARCH .. LIMIT 100` ("not paged over"),
 //!    and a command family whose permission p does not hold (search / read_history / export /
 //!    project) is refused;
 //!  * authority timeline: after a revocation / suspension / expiry / explicit deny, p's next
 //!    request equals that of a fresh principal which only ever held what p still holds, and a
 //!    principal holding nothing is refused every FIND/SEARCH/HISTORY/CHANGES/EXPORT/PREVIEW;
-//!    delegation: whatever is denied to the delegator now is denied to the delegate now, and the
-//!    delegate sees no element id the delegator does not see;
+//!    one of two sources removed: p's next request equals that of a fresh principal holding the
+//!    other source only;
+//!    delegation: every Delegation record states its own bounds, drawn independently of what it
+//!    descends from (not stated / restated / narrower / WIDER, per bound: classification ceiling as
+//!    constraint and as scope list, field mask, max_results, kinds, actions, influence-authority
+//!    ceiling; chains of 1-3 links; also "only an earlier link states the bound"). Against every
+//!    principal up the chain: whatever is denied to it now is denied to the delegate now, the
+//!    delegate sees no element id, no member of an element and no more rows than it does, and
+//!    raises no element's influence authority (host API) where it is refused;
 //!  * no self-escalation: no KML/KQL/META command of any session changes a gov_* collection
 //!    (audit may gain rows), a Space's governance columns or an existing element's governance
 //!    block; no session without write authority gets a mutation executed; a writer whose ceiling is
